@@ -82,7 +82,10 @@ def _annotations_from_paragraphs(
             "path": paths,
             "precedence": "aggregate",
             "SPDX-FileCopyrightText": copyrights,
-            "SPDX-License-Identifier": paragraph.license.to_str(),
+            # Only the synopsis is an SPDX expression (it is what the dep5
+            # reader parses); a licence text that follows it in the field is
+            # not part of it.
+            "SPDX-License-Identifier": paragraph.license.synopsis,
         }
         comment = _comment_from_paragraph(paragraph)
         if comment:
